@@ -1118,4 +1118,202 @@ theorem components_perm (m : WMol) : (components m).flatten.Perm (List.range m.n
   rwa [length_compLabels] at this
 
 
+/-! ### `mapM` in `Except` -/
+
+theorem mapM_getElem {α β ε : Type} (g : α → Except ε β) : ∀ (l : List α) (r : List β), l.mapM g = .ok r →
+    ∀ (k : Nat) (a : α), l[k]? = some a → ∃ b, r[k]? = some b ∧ g a = .ok b := by
+  intro l
+  induction l with
+  | nil => intro r _ k a hk; simp at hk
+  | cons x l ih =>
+    intro r h k a hk
+    rw [List.mapM_cons] at h
+    obtain ⟨b, hb, h1⟩ := bind_ok h
+    obtain ⟨bs, hbs, h2⟩ := bind_ok h1
+    simp only [pure, Except.pure, Except.ok.injEq] at h2
+    subst h2
+    cases k with
+    | zero =>
+      simp only [List.getElem?_cons_zero, Option.some.injEq] at hk
+      subst hk
+      exact ⟨b, by simp, hb⟩
+    | succ k =>
+      simp only [List.getElem?_cons_succ] at hk ⊢
+      exact ih bs hbs k a hk
+
+/-! ### connectedness of the product molecules -/
+
+theorem Adj.symm {p : WMol} {a b : Nat} (h : Adj p a b) : Adj p b a := by
+  obtain ⟨e, he, hj⟩ := h
+  exact ⟨e, he, by rw [joins_comm]; exact hj⟩
+
+theorem Conn.trans {p : WMol} {a b c : Nat} (h1 : Conn p a b) (h2 : Conn p b c) : Conn p a c := by
+  induction h2 with
+  | refl => exact h1
+  | step _ hadj ih => exact Conn.step ih hadj
+
+theorem Conn.single {p : WMol} {a b : Nat} (h : Adj p a b) : Conn p a b := Conn.step (Conn.refl a) h
+
+theorem Conn.symm {p : WMol} {a b : Nat} (h : Conn p a b) : Conn p b a := by
+  induction h with
+  | refl => exact Conn.refl _
+  | step _ hadj ih => exact (Conn.single hadj.symm).trans ih
+
+theorem getD_set (l : List Nat) (i v j : Nat) : (l.set i v).getD j j = if i = j ∧ i < l.length then v else l.getD j j := by
+  simp only [List.getD_eq_getElem?_getD, List.getElem?_set]
+  by_cases hij : i = j
+  · subst hij
+    by_cases hi : i < l.length
+    · simp [hi]
+    · simp [hi]
+  · simp [hij]
+
+/-- one bond of a relaxation pass -/
+def relaxStep (l : List Nat) (e : WBond) : List Nat :=
+  let mn := min (l.getD e.a e.a) (l.getD e.b e.b)
+  (l.set e.a mn).set e.b mn
+
+theorem relax_eq_foldl (bonds : List WBond) (lab : List Nat) : relax bonds lab = bonds.foldl relaxStep lab := rfl
+
+/-- every label is an atom of the same connected piece -/
+def LabelsConn (p : WMol) (lab : List Nat) : Prop := ∀ i, Conn p i (lab.getD i i)
+
+theorem relaxStep_conn {p : WMol} {lab : List Nat} (h : LabelsConn p lab) {e : WBond} (he : e ∈ p.bonds) :
+    LabelsConn p (relaxStep lab e) := by
+  intro i
+  have hab : Adj p e.a e.b := ⟨e, he, by simp [WBond.joins]⟩
+  have hmn : Conn p e.a (min (lab.getD e.a e.a) (lab.getD e.b e.b)) ∧ Conn p e.b (min (lab.getD e.a e.a) (lab.getD e.b e.b)) := by
+    rcases Nat.le_total (lab.getD e.a e.a) (lab.getD e.b e.b) with hle | hle
+    · rw [Nat.min_eq_left hle]
+      exact ⟨h e.a, (Conn.single hab.symm).trans (h e.a)⟩
+    · rw [Nat.min_eq_right hle]
+      exact ⟨(Conn.single hab).trans (h e.b), h e.b⟩
+  simp only [relaxStep, getD_set, List.length_set]
+  split
+  · rename_i hc; rw [← hc.1]; exact hmn.2
+  · split
+    · rename_i hc; rw [← hc.1]; exact hmn.1
+    · exact h i
+
+theorem foldl_relaxStep_conn {p : WMol} : ∀ (bs : List WBond) (lab : List Nat), (∀ e ∈ bs, e ∈ p.bonds) →
+    LabelsConn p lab → LabelsConn p (bs.foldl relaxStep lab) := by
+  intro bs
+  induction bs with
+  | nil => intro lab _ h; exact h
+  | cons e t ih =>
+    intro lab hsub h
+    rw [List.foldl_cons]
+    exact ih _ (fun x hx => hsub x (List.mem_cons_of_mem _ hx)) (relaxStep_conn h (hsub e (List.mem_cons_self)))
+
+theorem relaxN_conn {p : WMol} : ∀ (k : Nat) (lab : List Nat), LabelsConn p lab → LabelsConn p (relaxN p.bonds k lab) := by
+  intro k
+  induction k with
+  | zero => intro lab h; exact h
+  | succ k ih =>
+    intro lab h
+    rw [relaxN]
+    exact ih _ (by rw [relax_eq_foldl]; exact foldl_relaxStep_conn _ _ (fun _ he => he) h)
+
+theorem compLabels_conn (p : WMol) : LabelsConn p (compLabels p) := by
+  apply relaxN_conn
+  intro i
+  rw [List.getD_eq_getElem?_getD]
+  by_cases hi : i < p.natoms
+  · rw [List.getElem?_range hi]; exact Conn.refl i
+  · rw [List.getElem?_eq_none (by simpa using hi)]; exact Conn.refl i
+
+/-- the atoms of one product molecule are connected to each other along bonds of the product -/
+theorem components_connected (p : WMol) : ∀ c ∈ components p, ∀ a ∈ c, ∀ b ∈ c, Conn p a b := by
+  intro c hc a ha b hb
+  simp only [components, groupsBy, List.mem_map] at hc
+  obtain ⟨r, _, rfl⟩ := hc
+  have ha' := (List.mem_filter.1 ha).2
+  have hb' := (List.mem_filter.1 hb).2
+  simp only [beq_iff_eq] at ha' hb'
+  have h1 := compLabels_conn p a
+  have h2 := compLabels_conn p b
+  rw [ha'] at h1
+  rw [hb'] at h2
+  exact h1.trans h2.symm
+
+/-- pointwise order of labellings -/
+def LabLe (l l' : List Nat) : Prop := ∀ i, l.getD i i ≤ l'.getD i i
+
+theorem relaxStep_le (l : List Nat) (e : WBond) : LabLe (relaxStep l e) l := by
+  intro i
+  simp only [relaxStep, getD_set, List.length_set]
+  split
+  · rename_i hc; rw [← hc.1]; exact Nat.min_le_right _ _
+  · split
+    · rename_i hc; rw [← hc.1]; exact Nat.min_le_left _ _
+    · exact Nat.le_refl _
+
+theorem foldl_relaxStep_le : ∀ (bs : List WBond) (l : List Nat), LabLe (bs.foldl relaxStep l) l := by
+  intro bs
+  induction bs with
+  | nil => intro l i; exact Nat.le_refl _
+  | cons e t ih =>
+    intro l i
+    rw [List.foldl_cons]
+    exact Nat.le_trans (ih _ i) (relaxStep_le l e i)
+
+/-- at a fixed point of a relaxation pass the two ends of every bond (inside the labelling) carry the same label -/
+theorem fixpoint_closed : ∀ (bs : List WBond) (l : List Nat), bs.foldl relaxStep l = l →
+    ∀ e ∈ bs, e.a < l.length → e.b < l.length → l.getD e.a e.a = l.getD e.b e.b := by
+  intro bs
+  induction bs with
+  | nil => intro l _ e he; simp at he
+  | cons e0 t ih =>
+    intro l hfix e he ha hb
+    rw [List.foldl_cons] at hfix
+    -- the first step is already the identity (labels only go down)
+    have hstep : ∀ i, (relaxStep l e0).getD i i = l.getD i i := by
+      intro i
+      apply Nat.le_antisymm (relaxStep_le l e0 i)
+      have := foldl_relaxStep_le t (relaxStep l e0) i
+      rw [hfix] at this
+      exact this
+    have hlen : (relaxStep l e0).length = l.length := by simp [relaxStep, List.length_set]
+    have heq : relaxStep l e0 = l := by
+      apply List.ext_getElem?
+      intro i
+      by_cases hi : i < l.length
+      · have h1 := hstep i
+        rw [List.getD_eq_getElem?_getD, List.getD_eq_getElem?_getD, List.getElem?_eq_getElem hi,
+            List.getElem?_eq_getElem (by rw [hlen]; exact hi)] at h1
+        rw [List.getElem?_eq_getElem hi, List.getElem?_eq_getElem (by rw [hlen]; exact hi)]
+        simpa using h1
+      · rw [List.getElem?_eq_none (by omega), List.getElem?_eq_none (by omega)]
+    rcases List.mem_cons.1 he with rfl | het
+    · -- the bond just processed: both ends got the minimum, and nothing changed
+      have h1 := hstep e.a
+      have h2 := hstep e.b
+      simp only [relaxStep, getD_set, List.length_set] at h1 h2
+      by_cases hab : e.a = e.b
+      · rw [hab]
+      · have hba : ¬ e.b = e.a := fun h => hab h.symm
+        simp only [hab, hba, false_and, if_false, ha, hb, and_self, if_true] at h1 h2
+        omega
+    · rw [heq] at hfix
+      exact ih l hfix e het ha hb
+
+
+/-- with the labelling at a fixed point, the two ends of every bond are in the same product molecule -/
+theorem components_closed_of_fixpoint (p : WMol) (hw : p.wf = true) (hfix : componentsClosed p = true) :
+    ∀ e ∈ p.bonds, ∃ c ∈ components p, e.a ∈ c ∧ e.b ∈ c := by
+  intro e he
+  have hfix' : p.bonds.foldl relaxStep (compLabels p) = compLabels p := by
+    simpa [componentsClosed, relax_eq_foldl] using hfix
+  simp only [WMol.wf, Bool.and_eq_true, List.all_eq_true, decide_eq_true_eq, bne_iff_ne, ne_eq] at hw
+  obtain ⟨⟨ha, hb⟩, _⟩ := hw.1 e he
+  have hlen := length_compLabels p
+  have heq := fixpoint_closed p.bonds (compLabels p) hfix' e he (by rw [hlen]; exact ha) (by rw [hlen]; exact hb)
+  refine ⟨(List.range (compLabels p).length).filter (fun i => (compLabels p).getD i i == (compLabels p).getD e.a e.a), ?_, ?_, ?_⟩
+  · simp only [components, groupsBy, List.mem_map]
+    refine ⟨(compLabels p).getD e.a e.a, ?_, rfl⟩
+    rw [mem_dedup, List.getD_eq_getElem?_getD, List.getElem?_eq_getElem (by rw [hlen]; exact ha)]
+    exact List.getElem_mem _
+  · rw [List.mem_filter, List.mem_range, hlen]; exact ⟨ha, by simp⟩
+  · rw [List.mem_filter, List.mem_range, hlen]; exact ⟨hb, by rw [heq]; simp⟩
+
 end PGA.Rxn
